@@ -73,7 +73,8 @@ Definition enc_state (s : state) : list Z :=
   ++ [b2z (ec_closed s)] ++ enc_opt enc_dcall (dc_r s) ++ enc_opt enc_dcall (dc_p s) ++ enc_opt enc_reason (rreason s)
   ++ enc_list enc_reason (ec_sent s) ++ enc_list enc_event (consumed s)
   ++ enc_list (fun p => enc_event (fst p) ++ [b2z (snd p)]) (hlog s) ++ [n2z (hrun s)] ++ enc_opt enc_cause (cause s)
-  ++ [b2z (canc_pre_ret s); b2z (canc_pre_call s); b2z (canc_at_err s)] ++ enc_opt enc_eres (first_res s).
+  ++ [b2z (canc_pre_ret s); b2z (canc_pre_call s); b2z (canc_at_err s)] ++ enc_opt enc_eres (first_res s)
+  ++ [b2z (ended_uncancelled s); b2z (canc_pre_pe s)].
 Definition enc_x (x : xstate) : list Z := b2z (xraced x) :: n2z (length (xrem x)) :: enc_state (xs x).
 
 Definition racing (s : state) : bool :=
